@@ -13,7 +13,7 @@ from ..impl import curies  # noqa  (bootstraps the import path)
 PROP = "C20"
 from curies.w3c import is_w3c_curie, is_w3c_prefix  # noqa: E402
 
-SYMBOLS = ["g", "G", "1", "_", ".", "-", ":", "/", "#", " ", "\t", "\n", "\r", "[", "]", "é"]
+SYMBOLS = ["g", "G", "1", "_", ".", "-", ":", "/", "#", " ", "\t", "\n", "\r", "[", "]", "é", "\u2003"]   # the last: non-ASCII whitespace
 WS = set(" \t\n\r\x0b\x0c")
 LETTERS = set("abcdefghijklmnopqrstuvwxyzABCDEFGHIJKLMNOPQRSTUVWXYZ")
 DIGITS = set("0123456789")
@@ -69,7 +69,7 @@ def classify_prefix(s, got):
 def classify_curie(s, got):
     if got:
         if any(c.isspace() for c in s):
-            return "curie-accepted-with-whitespace"
+            return "curie-accepted-with-whitespace" if any(c in " \t\n\r" for c in s) else "curie-accepted-with-non-ascii-whitespace"
         if "[" in s or "]" in s:
             return "curie-accepted-with-bracket"
         head, sep, tail = s.partition(":")
